@@ -61,6 +61,13 @@ func (e *enc) callCommon(b *ssa.BasicBlock, ins ssa.Instruction, cc *ssa.CallCom
 	if cc.IsInvoke() {
 		e.curCallRefs = append(e.curCallRefs, "(iptr "+e.val(cc.Value)+")")
 	}
+	e.callBinds = nil
+	if mc, ok := cc.Value.(*ssa.MakeClosure); ok {
+		e.callBinds = map[string]bool{}
+		for _, bd := range mc.Bindings {
+			e.callBinds[e.val(bd)] = true
+		}
+	}
 	havocRes := func() string {
 		if res != nil {
 			return e.havoc(res)
@@ -75,6 +82,8 @@ func (e *enc) callCommon(b *ssa.BasicBlock, ins ssa.Instruction, cc *ssa.CallCom
 		recv := e.val(cc.Value)
 		e.addI("safe", "nil-iface", ins, R, fmt.Sprintf("(not (= %s INil))", recv))
 		key := e.ifaceKey(cc)
+		e.callOrd[key]++
+		e.siteAsserts(ins, fmt.Sprintf("call %d of %s", e.callOrd[key], key), cc.Method.Type().(*types.Signature), append([]string{recv}, args...), R)
 		if fc := e.w.CS.Ifaces[key]; fc != nil {
 			fc.Used = true
 			sig := cc.Method.Type().(*types.Signature)
@@ -363,6 +372,28 @@ func (e *enc) applyContract(ins ssa.Instruction, fc *FuncContract, key string, s
 	}
 	pre := e.heap.clone()
 	env.st, env.old = pre, pre
+	// a closure's captured variables: resolved through the bindings of the MakeClosure
+	if ci, ok := ins.(ssa.CallInstruction); ok {
+		if mc, ok := ci.Common().Value.(*ssa.MakeClosure); ok {
+			fn := mc.Fn.(*ssa.Function)
+			binds := mc.Bindings
+			base := env.lookup
+			env.lookup = func(name string) (cval, bool) {
+				for i, fv := range fn.FreeVars {
+					if fv.Name() == name && i < len(binds) {
+						e.val(binds[i])
+						if l, ok := e.locs[binds[i]]; ok && l.kind != "struct" {
+							return cval{e.loadIn(l, env.st), l.sort, l.t}, true
+						}
+					}
+				}
+				if base != nil {
+					return base(name)
+				}
+				return cval{}, false
+			}
+		}
+	}
 	for _, c := range fc.Requires {
 		t, err := env.boolTerm(c.Expr)
 		if err != nil {
